@@ -2,13 +2,14 @@
 # tools/saveseeds.sh <seed-root> : run seedtest on every seed under <seed-root>/<n>/ and store it under
 # /verif/seeded/<property>-<n>/ (patch.diff, demo.py, meta.json with the detection record appended).
 ROOT="$1"
+SUF="$2"   # optional wave suffix (e.g. b): destination <property>-<suffix><n>
 for d in "$ROOT"/[0-9]*; do
   [ -f "$d/patch.diff" ] || continue
   OUT=$(SHOW=3 /verif/tools/seedtest.sh "$d" 2>&1)
   echo "$OUT" | head -1
   PID=$(python3 -c "import json;print(json.load(open('$d/meta.json'))['property'])")
   N=$(basename "$d")
-  DEST=/verif/seeded/$PID-$N
+  DEST=/verif/seeded/$PID-$SUF$N
   mkdir -p "$DEST"
   cp "$d/patch.diff" "$d/demo.py" "$DEST/"
   TMPF=$(mktemp)
